@@ -810,3 +810,79 @@ def smtwtp_multistart_case(ctx, case, monitors):
             ctx.violation(dict(sig, rule="not_a_permutation"), f"row {r}: episode {seqs[r]} is not a permutation of the jobs 1..{n}", dict(row=r, seq=seqs[r], k=k))
             return
         ctx.nontrivial_case(dict(s=seqs[r], i=td_in["job_due_time"][r % B].tolist()))
+
+
+def jobshop_multistart_case(ctx, case, monitors):
+    """FJSP / JSSP episodes whose first move is handed out by the environment's own start rule (env.select_start_nodes: random
+    eligible (job, machine) pairs, one set per instance), the rest mask-confined. Row r of the expanded batch is instance r mod B:
+    its forced start must be admitted by ITS instance's mask, and the finished row must be a valid schedule of that instance
+    (every operation once, on an eligible machine, for its processing time there) by the reference simulator."""
+    from rl4co.utils.ops import batchify
+    from vlib.episode import choose, row_done
+
+    cfg, B, seed, k = case["cfg"], case["B"], case["s"], int(case["k"])
+    name = cfg["env"]
+    env = envzoo.make_other(cfg)
+    torch.manual_seed(seed)
+    td_in = env.generator(batch_size=[B])
+    td0 = env.reset(td_in.clone())
+    insts = [S.JobShop.extract(td0.clone(), b) for b in range(B)]
+    dec = S.fjsp_decode(cfg["mas"]) if name == "fjsp" else S.jssp_decode()
+    sig = sig_of(cfg, mode="multistart", mask_no_ops=cfg["mask_no_ops"])
+    mask0 = td0["action_mask"].reshape(B, -1).bool()
+    try:
+        torch.manual_seed(seed + 3)
+        a0 = env.select_start_nodes(td0.clone(), num_starts=k)
+    except Exception as e:
+        ctx.evaluation()
+        ctx.violation(dict(sig, q="select_start_nodes_raises", exc=type(e).__name__), f"select_start_nodes(k={k}) raised {type(e).__name__}: {str(e)[:160]}", None)
+        return
+    R = B * k
+    ctx.count("episodes")
+    ctx.count("c07_jobshop_multistart_runs")
+    if a0.numel() != R:
+        ctx.evaluation()
+        ctx.violation(dict(sig, q="start_shape"), f"select_start_nodes(k={k}) returned {tuple(a0.shape)} for batch {B}", None)
+        return
+    for r in range(R):
+        ctx.evaluation()
+        ctx.count("c07_forced_starts_checked")
+        if not bool(mask0[r % B, int(a0[r])]):
+            ctx.violation(dict(sig, rule="forced_start_not_eligible"), f"row {r} (start {r // B} of instance {r % B}) is started with action {int(a0[r])}, which its instance's mask forbids (an ineligible machine / unavailable job)", dict(row=r, B=B, k=k, inst=insts[r % B]))
+            return
+    td = batchify(td0.clone(), k)
+    gen = torch.Generator().manual_seed(seed)
+    names = [["uniform", "first_true", "last_true"][i % 3] for i in range(R)]
+    seqs = [[int(a0[r])] for r in range(R)]
+    td.set("action", a0.clone())
+    try:
+        td = env.step(td)["next"]
+        t, bound = 1, max(S.JobShop.step_bound(i) for i in insts) + 5
+        while not bool(row_done(td).all()) and t < bound:
+            mask = td["action_mask"].reshape(R, -1).bool()
+            live = ~row_done(td).reshape(R)
+            if bool((~mask.any(-1) & live).any()):
+                ctx.evaluation()
+                ctx.violation(dict(sig, q="dead_end"), f"multi-start: an unfinished row has no feasible action at step {t}", dict(B=B, k=k))
+                return
+            a = choose(names, torch.where(mask.any(-1, keepdim=True), mask, torch.ones_like(mask)), td, gen)
+            for r in range(R):
+                if bool(live[r]):
+                    seqs[r].append(int(a[r]))
+            td.set("action", a)
+            td = env.step(td)["next"]
+            t += 1
+    except Exception as e:
+        ctx.evaluation()
+        ctx.violation(dict(sig, q="step_raises", exc=type(e).__name__), f"env.step raised {type(e).__name__} in a multi-start episode: {str(e)[:160]}", dict(B=B, k=k))
+        return
+    for r in range(R):
+        b = r % B
+        s2, f2, m2, done2, err = S.JobShop.simulate(insts[b], seqs[r], dec, not cfg["mask_no_ops"])
+        ctx.evaluation()
+        ctx.count("c07_schedules_checked")
+        ctx.count("c07_jobshop_multistart_rows")
+        if err is not None or not done2:
+            ctx.violation(dict(sig, rule="multistart_schedule_invalid"), f"row {r} (instance {b}): the episode is not a valid schedule of its instance: {err or 'schedule not finished'}", dict(row=r, inst=insts[b], actions=seqs[r]))
+            return
+        ctx.nontrivial_case(dict(i=insts[b], a=seqs[r]))
